@@ -2968,3 +2968,184 @@ func checkC03MapRows(c *Ctx) {
 	})
 	r.Check(n > 0 && bad == 0, f.Name(), "cell of row i", where, "stored at index i of its column list", "a cell value of a slice-of-maps create is not stored at the row's own index of its column list (appended, or indexed by something else): when rows have different key sets the values of a sparse column slide into other rows")
 }
+
+// C11.join-null: when a row of an association Join is scanned, a pointer relation is allocated at the first of its
+// columns that is not NULL; "the joined row does not exist" is never concluded from a single NULL column.  The
+// per-row map of scanIntoStruct therefore records ALLOCATED relations only.  Decided: on every path through the
+// nested loop, a store into that map is preceded by the allocation `X.Set(reflect.New(...))` of the relation value.
+func checkC11JoinNull(c *Ctx) {
+	p := c.P
+	r := c.Rule("C11.join-null", "scanIntoStruct marks a joined pointer relation only when it allocates it (a NULL column alone never decides that the joined row is missing)", 1)
+	f := p.MethodDecl(pkgGorm, "DB", "scanIntoStruct")
+	c.Touch(f)
+	info := f.Pkg.TypesInfo
+	// local maps keyed by string declared with make(...) in the function
+	var stores []*ast.AssignStmt
+	ast.Inspect(f.Body, func(n ast.Node) bool {
+		as, ok := n.(*ast.AssignStmt)
+		if !ok || len(as.Lhs) != 1 {
+			return true
+		}
+		ix, ok := unparen(as.Lhs[0]).(*ast.IndexExpr)
+		if !ok {
+			return true
+		}
+		id, ok := unparen(ix.X).(*ast.Ident)
+		if !ok {
+			return true
+		}
+		if mt, ok := info.TypeOf(id).Underlying().(*types.Map); ok {
+			if b, ok := mt.Key().Underlying().(*types.Basic); ok && b.Kind() == types.String {
+				if v, ok := info.ObjectOf(id).(*types.Var); ok && !v.IsField() && v.Pos() > f.Body.Pos() {
+					stores = append(stores, as)
+				}
+			}
+		}
+		return true
+	})
+	if len(stores) == 0 {
+		r.Bad(f.Name(), "relation marker", f.Body.Pos(), "scanIntoStruct no longer keeps a per-row map of joined relations; rule lost its anchor")
+		return
+	}
+	isAlloc := func(n ast.Node) bool {
+		found := false
+		ast.Inspect(n, func(x ast.Node) bool {
+			ce, ok := x.(*ast.CallExpr)
+			if !ok || len(ce.Args) != 1 {
+				return true
+			}
+			sel, ok := ce.Fun.(*ast.SelectorExpr)
+			if !ok || sel.Sel.Name != "Set" {
+				return true
+			}
+			if inner, ok := unparen(ce.Args[0]).(*ast.CallExpr); ok && calleeName(info, inner) == "reflect.New" {
+				found = true
+			}
+			return true
+		})
+		return found
+	}
+	parents := parentMap(f.Body)
+	for _, st := range stores {
+		// the innermost loop around the store: one iteration handles one level of one column
+		var loop ast.Stmt
+		for cur := parents[st]; cur != nil && loop == nil; cur = parents[cur] {
+			switch cur.(type) {
+			case *ast.RangeStmt, *ast.ForStmt:
+				loop = cur.(ast.Stmt)
+			}
+		}
+		if loop == nil {
+			r.Bad(f.Name(), "marks a joined relation", st.Pos(), "the marker is not set inside the per-level loop")
+			continue
+		}
+		iters, ok := p.EnumLoopIterPaths(f, loop, 5000)
+		if !ok {
+			r.Unknown(f.Name(), "paths", loop.Pos(), "iteration paths not enumerable")
+			continue
+		}
+		bad, seen := 0, 0
+		for _, nodes := range iters {
+			at := -1
+			for i, nd := range nodes {
+				if nd == ast.Node(st) || containsNode(nd, st) {
+					at = i
+					break
+				}
+			}
+			if at < 0 {
+				continue
+			}
+			seen++
+			okp := false
+			for _, nd := range nodes[:at] {
+				if isAlloc(nd) {
+					okp = true
+				}
+			}
+			if !okp {
+				bad++
+			}
+		}
+		r.Check(seen > 0 && bad == 0, f.Name(), "marks a joined relation", st.Pos(), "only after allocating it", "a joined pointer relation is marked in the per-row map on a path that did not allocate it: the mark then stands for `the joined row is NULL`, decided from one NULL column - an existing child row whose first selected column is NULL is dropped")
+	}
+}
+
+// C12.values-all: the targets named in an association Delete / Replace are passed as several arguments; every
+// argument's key values go into the query.  Decided by loop-iteration paths of
+// schema.GetIdentityFieldValuesMapFromValues: each iteration over the arguments appends its values to the returned
+// list on every path.
+func checkC12ValuesAll(c *Ctx) {
+	p := c.P
+	r := c.Rule("C12.values-all", "GetIdentityFieldValuesMapFromValues appends the key values of every argument to the returned list", 1)
+	f := p.FuncDecl(pkgSchema, "GetIdentityFieldValuesMapFromValues")
+	c.Touch(f)
+	info := f.Pkg.TypesInfo
+	// the []interface{} parameter
+	var vals types.Object
+	for _, fl := range f.Decl.Type.Params.List {
+		for _, nm := range fl.Names {
+			if o := info.Defs[nm]; o != nil && o.Type().String() == "[]interface{}" {
+				vals = o
+			}
+		}
+	}
+	// result list: the slice-typed value returned second
+	var loop *ast.RangeStmt
+	ast.Inspect(f.Body, func(n ast.Node) bool {
+		if rs, ok := n.(*ast.RangeStmt); ok && loop == nil {
+			if id, ok := unparen(rs.X).(*ast.Ident); ok && info.Uses[id] == vals {
+				loop = rs
+			}
+		}
+		return true
+	})
+	var resObj types.Object
+	ast.Inspect(f.Body, func(n ast.Node) bool {
+		if rs, ok := n.(*ast.ReturnStmt); ok && len(rs.Results) == 2 {
+			if id, ok := unparen(rs.Results[1]).(*ast.Ident); ok {
+				resObj = info.ObjectOf(id)
+			}
+		}
+		return true
+	})
+	if loop == nil || resObj == nil {
+		r.Bad(f.Name(), "argument loop", f.Body.Pos(), "no loop over the arguments / no returned list found; rule lost its anchor")
+		return
+	}
+	var apps []ast.Node
+	ast.Inspect(loop.Body, func(n ast.Node) bool {
+		as, ok := n.(*ast.AssignStmt)
+		if !ok || len(as.Lhs) != 1 || len(as.Rhs) != 1 {
+			return true
+		}
+		if id, ok := unparen(as.Lhs[0]).(*ast.Ident); ok && info.ObjectOf(id) == resObj {
+			if ce, ok := unparen(as.Rhs[0]).(*ast.CallExpr); ok {
+				if fid, ok := ce.Fun.(*ast.Ident); ok && fid.Name == "append" {
+					apps = append(apps, as)
+				}
+			}
+		}
+		return true
+	})
+	paths, okp := p.EnumLoopIterPaths(f, loop, 5000)
+	if !okp {
+		r.Unknown(f.Name(), "argument loop", loop.Pos(), "iteration paths not enumerable")
+		return
+	}
+	bad := 0
+	for _, nodes := range paths {
+		k := 0
+		for _, nd := range nodes {
+			for _, a := range apps {
+				if nd == a || containsNode(nd, a) {
+					k++
+				}
+			}
+		}
+		if k != 1 {
+			bad++
+		}
+	}
+	r.Check(len(apps) > 0 && bad == 0, f.Name(), "values of every argument", loop.Pos(), "appended on every iteration path", "an iteration over the arguments can complete without appending that argument's key values to the returned list: targets named in a later argument are left out of the IN (...) list - Delete keeps their link, Replace removes the rows it has just inserted")
+}
